@@ -16,3 +16,9 @@ package udpcmsg
 //@ func CmsgPktInfo(b []byte, addr netip.Addr) (r []byte)
 //@   trusted
 //@   modifies b[0:len(b)]
+//@ func Ok() (ok bool)
+//@   trusted
+//@   modifies nothing
+//@ func SetOpt(c *net.UDPConn) (inet6 bool, err error)
+//@   trusted
+//@   modifies nothing
